@@ -464,8 +464,9 @@ Proof. apply mirror_delbit. Qed.
 Theorem mirror_overwrite (same : bool) (b bs : bits) (pos : Z) :
   ba_overwrite true same b bs pos = res_map (@rev bool) (ba_overwrite false same (rev b) (rev bs) pos).
 Proof.
-  unfold ba_overwrite. rewrite !zlen_rev. destruct (zlen bs =? 0); [cbn [res_map]; now rewrite rev_involutive|].
+  unfold ba_overwrite. rewrite !zlen_rev.
   set (p := if pos <? 0 then pos + zlen b else pos). destruct ((p <? 0) || (p >? zlen b)); [reflexivity|].
+  destruct (zlen bs =? 0); [cbn [res_map]; now rewrite rev_involutive|].
   unfold overwrite_. rewrite !zlen_rev. destruct ((0 <=? p) && (p <=? zlen b)); [|reflexivity].
   destruct (same && (p =? 0)); [cbn [res_map]; now rewrite rev_involutive|]. apply mirror_setslice.
 Qed.
